@@ -42,6 +42,13 @@ static int ran_on[16];
 static int wrong_element;
 static unsigned char *cur_base;
 static bool in_experiment;
+static int done_count[16];          /* the trial function has returned for this element */
+static int spawned[32], nspawned;    /* scheduler ids of the worker threads of this execution */
+static bool joined[32];
+static bool in_pilot;                /* the free-running pilot experiment: its real threads are tracked too */
+static pthread_t pilot_th[32];
+static bool pilot_joined[32];
+static int npilot;
 
 uint32_t cmi_cpu_cores(void)
 {
@@ -52,10 +59,19 @@ int __wrap_pthread_create(pthread_t *th, const pthread_attr_t *attr, void *(*fn)
 {
     if (scheduled && in_experiment) {
         (void)attr;
-        vxs_spawn(th, fn, arg);
+        const int tid = vxs_spawn(th, fn, arg);
+        if (nspawned < 32) {
+            joined[nspawned] = false;
+            spawned[nspawned++] = tid;
+        }
         return 0;
     }
-    return __real_pthread_create(th, attr, fn, arg);
+    const int rc = __real_pthread_create(th, attr, fn, arg);
+    if (in_pilot && rc == 0 && npilot < 32) {
+        pilot_joined[npilot] = false;
+        pilot_th[npilot++] = *th;
+    }
+    return rc;
 }
 
 int __wrap_pthread_join(pthread_t th, void **ret)
@@ -63,11 +79,23 @@ int __wrap_pthread_join(pthread_t th, void **ret)
     if (scheduled && in_experiment) {
         const int t = vxs_tid_of(th);
         if (t >= 0) {
+            for (int k = 0; k < nspawned; k++) {
+                if (spawned[k] == t) {
+                    joined[k] = true;
+                }
+            }
             vxs_join_tid(t);
             if (ret) {
                 *ret = NULL;
             }
             return 0;
+        }
+    }
+    if (in_pilot) {
+        for (int k = 0; k < npilot; k++) {
+            if (pthread_equal(pilot_th[k], th)) {
+                pilot_joined[k] = true;
+            }
         }
     }
     return __real_pthread_join(th, ret);
@@ -273,13 +301,16 @@ static void trial_func(void *vp)
     if (scheduled && in_experiment) {
         vxs_point("trial-return");
     }
+    if (idx >= 0 && idx < T) {
+        __atomic_add_fetch(&done_count[idx], 1, __ATOMIC_SEQ_CST);
+    }
 }
 
 static void pilot_func(void *vp)
 {
     unsigned char *ep = vp;
     uint64_t r = rng_probe(0x9177);
-    r = vx_mix(r, run_model((struct model *)(ep + 16), 0x9178, false));
+    r = vx_mix(r, run_model((struct model *)(ep + 16), 0x9178, false)) | 1u;
     memcpy(ep, &r, 8);
 }
 
@@ -320,8 +351,24 @@ static void run_one(void)
         static unsigned char pilot_el[4096] __attribute__((aligned(16)));
         memset(pilot_el, 0, sizeof pilot_el);
         in_experiment = false;
+        npilot = 0;
+        in_pilot = true;
         cimba_run_experiment(pilot_el, 1u, sizeof pilot_el, pilot_func);
+        in_pilot = false;
         __builtin_ia32_ldmxcsr(0x1f80);
+        /* "returns only after all calls have finished": the pilot's one call writes its result last */
+        uint64_t pilot_result;
+        memcpy(&pilot_result, pilot_el, 8);
+        for (int k = 0; k < npilot; k++) {
+            if (!pilot_joined[k]) {
+                __real_pthread_join(pilot_th[k], NULL); /* a worker nobody waited for must not wander into the experiment examined next */
+            }
+        }
+        if (pilot_result == 0) {
+            vx_violation("free:c19:returned-before-all-trials-finished", "cimba_run_experiment (1 trial, %d workers, free-running) "
+                         "returned before its one trial call had finished", W);
+            return;
+        }
         /* ... and the program goes on using the library between its experiments, on a thread of its own */
         pthread_t it;
         __real_pthread_create(&it, NULL, interlude_thread, pilot_el);
@@ -337,9 +384,36 @@ static void run_one(void)
     if (scheduled) {
         vxs_begin();
     }
+    memset(done_count, 0, sizeof done_count);
+    nspawned = 0;
     in_experiment = true;
     cimba_run_experiment(arr, (uint64_t)T, SZ, trial_func);
+    /* "returns only after all calls have finished": looked at before anything else runs */
+    int unfinished = 0, first_unfinished = -1;
+    for (int i = 0; i < T; i++) {
+        if (__atomic_load_n(&done_count[i], __ATOMIC_SEQ_CST) == 0) {
+            unfinished++;
+            first_unfinished = first_unfinished < 0 ? i : first_unfinished;
+        }
+    }
+    int unjoined = 0;
+    if (scheduled) {
+        /* worker threads the executive did not wait for are run to their end now, so that the execution can end */
+        for (int k = 0; k < nspawned; k++) {
+            if (!joined[k]) {
+                unjoined++;
+                vxs_join_tid(spawned[k]);
+            }
+        }
+    }
     in_experiment = false;
+    if (unfinished > 0) {
+        FAIL("returned-before-all-trials-finished", "cimba_run_experiment returned while %d of %d trial call(s) had not finished "
+             "(first: trial %d) and %d of its %d worker thread(s) had not been waited for (workers %d)", unfinished, T,
+             first_unfinished, unjoined, nspawned, W);
+        __builtin_ia32_ldmxcsr(0x1f80);
+        return;
+    }
     static int exec_saved[16], ran_saved[16];
     const int wrong_saved = wrong_element;
     memcpy(exec_saved, exec_count, sizeof exec_saved);
